@@ -250,8 +250,42 @@ func c12ScriptNames(e *emitter) {
 	}
 }
 
+// c12ScriptNameCollision looks for two script templates with the same name and parameters but different bodies that get
+// the same function name (the name carries only a few digits of a digest of the body).
+func c12ScriptNameCollision(e *emitter) {
+	seen := map[string]int{}
+	gen := func(i int) (string, string, string) {
+		body := fmt.Sprintf("console.log(\"variant %d\");", i)
+		code, err := generateGo("package x\n\nscript setup() {\n\t" + body + "\n}\n")
+		if err != nil {
+			return "", "", body
+		}
+		n, f := reScriptName.FindStringSubmatch(code), reScriptFunction.FindStringSubmatch(code)
+		if n == nil || f == nil {
+			return "", "", body
+		}
+		return n[1], f[1], body
+	}
+	for i := 0; i < 4000; i++ {
+		name, fn, body := gen(i)
+		if name == "" {
+			continue
+		}
+		if j, dup := seen[name]; dup {
+			_, fj, bj := gen(j)
+			e.emit("scriptname collision", "scriptname", hx(" | "+bj), hx(" | "+body), hx(name), hx(name), b01(fj == fn), b01(false))
+			return
+		}
+		seen[name] = i
+	}
+	e.count("no-script-name-collision-in-4000-bodies")
+}
+
 func runC12(e *emitter, tier string, seed uint64) {
 	c12ScriptNames(e)
+	if e.mine("scriptname collision") {
+		c12ScriptNameCollision(e)
+	}
 	r := &rng{s: seed}
 	n := 1500
 	if tier == "thorough" {
@@ -270,7 +304,17 @@ func runC12(e *emitter, tier string, seed uint64) {
 		for k := 1 + r.intn(8); k > 0; k-- {
 			u := c12GenUse(r)
 			which := r.intn(nctx)
-			if err := u.do(ctxs[which], &outs[which], handles); err != nil {
+			do := u.do
+			if r.chance(1, 3) {
+				// the use happens inside the child block of a component call (also the very first use of a context): the
+				// registry is the context's, not the block's
+				inner := u.do
+				do = func(ctx context.Context, w io.Writer, h map[int]*templ.OnceHandle) error {
+					block := templ.ComponentFunc(func(ctx context.Context, w io.Writer) error { return inner(ctx, w, h) })
+					return tmpl.Use("w").Render(templ.WithChildren(ctx, block), w)
+				}
+			}
+			if err := do(ctxs[which], &outs[which], handles); err != nil {
 				encs[which] = append(encs[which], "ERR")
 				continue
 			}
@@ -283,6 +327,29 @@ func runC12(e *emitter, tier string, seed uint64) {
 			enc := strings.Join(encs[k], ";")
 			e.emit(fmt.Sprintf("hist %d %d %s", i, k, enc), "hist", "-", enc, c12Events(outs[k].String()))
 		}
+	}
+	// 1b. a script and a CSS class that happen to have the same identifier are still two things
+	for i, order := range []string{"class-first", "script-first", "class-twice-then-script"} {
+		ctx := templ.InitializeContext(context.Background())
+		cls := templ.ComponentCSSClass{ID: "tooltip", Class: templ.SafeCSS(".tooltip{color:red;}")}
+		scr := templ.ComponentScript{Name: "tooltip", Function: "function tooltip(){}", Call: "tooltip()", CallInline: "tooltip()"}
+		var sb strings.Builder
+		useClass := func() { _ = templ.RenderCSSItems(ctx, &sb, cls); sb.WriteString("<i class=\"tooltip\"></i>") }
+		useScript := func() { _ = templ.RenderScriptItems(ctx, &sb, scr); sb.WriteString("<b onclick=\"tooltip()\"></b>") }
+		switch i {
+		case 0:
+			useClass()
+			useScript()
+		case 1:
+			useScript()
+			useClass()
+		default:
+			useClass()
+			useClass()
+			useScript()
+			useScript()
+		}
+		e.emit("alias "+order, "alias", order, hx(sb.String()))
 	}
 	// 2. the CSS middleware: registered classes are never inlined, requests are independent, the endpoint serves the rules
 	for i := 0; i < n/10; i++ {
